@@ -22,6 +22,25 @@ theorem annotation_idempotent (s : Bytes) : annotation (annotation s) = annotati
 theorem annotation_surrounding_blanks (s : Bytes) : annotation (B.sp :: (s ++ [B.sp])) = annotation s :=
   annotation_surrounding_blanks' s
 
+/-- (4, Unicode) the same for every white-space sequence that `strings.TrimSpace` removes — an ASCII space
+or the UTF-8 encoding of a Unicode space (`spaceSeqs`): one in front and one behind are immaterial -/
+theorem annotation_surrounding_spaces (p q s : Bytes) (hp : p ∈ spaceSeqs) (hq : q ∈ spaceSeqs) :
+    annotation (p ++ s ++ q) = annotation s :=
+  annotation_surrounding_spaces' p q s hp hq
+
+/-- (4, Unicode) instances: LINE SEPARATOR U+2028 (`E2 80 A8`) in front, NO-BREAK SPACE U+00A0 (`C2 A0`) behind -/
+theorem annotation_surrounding_u2028_u00A0 (s : Bytes) :
+    annotation ([0xE2, 0x80, 0xA8] ++ s ++ [0xC2, 0xA0]) = annotation s :=
+  annotation_surrounding_spaces' _ _ s (by decide) (by decide)
+
+/-- `trimSpaceU` (the model of `TrimSpace`) only removes bytes at the two ends, its result neither starts nor ends
+with a white-space sequence, and such a text is left alone -/
+theorem trimSpaceU_spec (b : Bytes) :
+    (∃ pre post, b = pre ++ trimSpaceU b ++ post) ∧ NoPre (trimSpaceU b) ∧ NoSuf (trimSpaceU b) ∧
+    trimSpaceU (trimSpaceU b) = trimSpaceU b :=
+  ⟨trimSpaceU_infix b, trimSpaceU_noPre b, trimSpaceU_noSuf b,
+    trimSpaceU_eq_self _ (trimSpaceU_noPre b) (trimSpaceU_noSuf b)⟩
+
 /-- (5) in an annotation every white-space run is a single space: no TAB/LF/FF/CR, no two spaces in a row -/
 theorem annotation_collapsed (s : Bytes) :
     (∀ c ∈ annotation s, c = B.sp ∨ isReSpace c = false) ∧
@@ -45,7 +64,7 @@ theorem description_normal_form (b d : Bytes) (h : description b = .ok d) : NF d
 
 /-- the text looks like "( … )" (so that `description` would strip the parentheses again) -/
 def parenShaped (d : Bytes) : Prop :=
-  let t := trimBoth isAsciiSpace d
+  let t := trimSpaceU d
   2 ≤ t.length ∧ t.head? = some B.lpar ∧ t.getLast? = some B.rpar
 
 /-- a normal form that does not look like "( … )" is a fixed point -/
@@ -96,5 +115,18 @@ example : annotation [32,32,97,32,9,32,98,32] = [97,32,98] := by decide
 
 /-- VT is trimmed at the ends but is not collapsed inside: `"\x0b a\x0b\x0b b"` ↦ `"a\x0b\x0b b"` -/
 example : annotation [11,32,97,11,11,32,98] = [97,11,11,32,98] := by decide
+
+/-- Unicode spaces are trimmed at the ends (as `strings.TrimSpace` does) but not collapsed inside (the regexp
+`\s` is ASCII): `"\u2028 a\u00a0\u00a0b \u3000"` ↦ `"a\u00a0\u00a0b"`; the text `"\u2028"` ↦ `""` -/
+example : annotation [0xE2,0x80,0xA8,32,97,0xC2,0xA0,0xC2,0xA0,98,32,0xE3,0x80,0x80] = [97,0xC2,0xA0,0xC2,0xA0,98] := by decide
+example : annotation [0xE2,0x80,0xA8] = [] := by decide
+
+/-- invalid UTF-8 is not white space: a lone continuation byte or a truncated sequence stops the trimming -/
+example : annotation [32,0xA8,32] = [0xA8] := by decide
+example : annotation [0xE2,0x80,32] = [0xE2,0x80] := by decide
+example : annotation [0xC2,0xA0,0xA0,0xC2] = [0xA0,0xC2] := by decide
+
+/-- the parentheses of a description may be surrounded by Unicode spaces: `"\u00a0(\n a\n)\u2028"` ↦ `"a"` -/
+example : description [0xC2,0xA0,40,10,32,97,10,41,0xE2,0x80,0xA8] = .ok [97] := by decide
 
 end JSight.C15
